@@ -166,12 +166,12 @@ pub proof fn lemma_rkt_final<P: Prefix, T>(m0: PrefixMap<P, T>, m1: PrefixMap<P,
 {
     let t0 = m0.tab(); let t1 = m1.tab(); let l0 = m0.live();
     assert(m1.live() =~= l0);
-    let par = choose|par: spec_fn(int) -> int| tloc(t0, l0, par);
+    let par = lemma_twf_par(t0, l0);
     assert forall|j: int| 0 <= j < t0.len() implies #[trigger] same_shape_at(t0, t1, j) by {
         if j != idx { assert(t1[j] == t0[j]); }
     }
     lemma_relink_same(t0, l0, par, t1);
-    assert(twf_live(t1, m1.live()));
+    lemma_twf_intro(t1, m1.live());
     if kb(t0, idx) =~= q {
         assert(kb(t0, idx) == q);
         assert forall|j: int| #![trigger t1[j]] 0 <= j < t0.len() implies t1[j].prefix == t0[j].prefix by {
